@@ -642,6 +642,16 @@ def _check_init(col, crate, rid, P, SZ):
     for f in want:
         if stray[f]:
             done[f] = False
+    # ... on EVERY returning path: a path that leaves reset without the initialisation steps the others perform
+    # (`if n == 1 { return; }`) keeps the previous forest
+    def steps(st_):
+        return [("loop",) if e.kind == "loop" else (e.extra.get("name"),) for e in st_.event_list() if e.kind == "loop" or (e.kind == "call" and e.extra.get("name") in ("resize", "clear", "fill", "extend", "for_each", "collect", "from_elem", "truncate", "resize_with"))]
+    sigs = [steps(st_) for st_ in I.final_states]
+    full = max(sigs, key=len) if sigs else []
+    for st_, sg in zip(I.final_states, sigs):
+        if len(sg) < len(full) and not zones.entails(st_.facts, "Eq", n, mk_int(0), I.tys):
+            for f in want:
+                done[f] = False
     for f in (P, SZ):
         nm = "parent" if f == P else "size"
         if done[f] and resized[f]:
